@@ -168,14 +168,17 @@ Proof.
   apply safe_bind; [apply safe_frame | intros x]. apply safe_bind; [apply IH | intros; exact I].
 Qed.
 
-Lemma safe_message : forall cap fcap c rd fe d pf pr bs, cap <= c -> fcap <= c ->
-  safe c (dec_message (AllocChunked cap) (FrameChunked fcap) fe rd d pf pr bs).
+Lemma safe_message : forall cap fcap c rd fe d pf pr tr bs, cap <= c -> fcap <= c ->
+  safe c (dec_message (AllocChunked cap) (FrameChunked fcap) fe rd d pf pr tr bs).
 Proof.
-  intros cap fcap c rd fe d pf pr bs H1 H2. unfold dec_message. apply safe_bind; [apply safe_fixed | intros].
-  apply safe_bind; [apply (safe_mono cap c _ H1); apply safe_header | intros].
-  apply safe_bind; [apply safe_shortstr | intros].
-  apply safe_bind; [apply safe_shortstr | intros].
-  apply safe_bind; [apply (safe_mono fcap c _ H2); apply safe_body | intros; exact I].
+  intros cap fcap c rd fe d pf pr tr bs H1 H2. unfold dec_message. apply safe_bind.
+  - unfold dec_message_core. apply safe_bind; [apply safe_fixed | intros].
+    apply safe_bind; [apply (safe_mono cap c _ H1); apply safe_header | intros].
+    apply safe_bind; [apply safe_shortstr | intros].
+    apply safe_bind; [apply safe_shortstr | intros].
+    apply safe_bind; [apply (safe_mono fcap c _ H2); apply safe_body | intros; exact I].
+  - intros x. destruct (tr && (4 <=? blen (snd x))); [|exact I].
+    apply safe_bind; [apply safe_fixed | intros; exact I].
 Qed.
 
 (* ---------- the unrepaired shapes are refuted by witnesses (defect F12) ---------- *)
